@@ -6,7 +6,7 @@
    aes_cbc_dec, H (Keccak-256) and pub_addr (key -> address) are universally
    quantified; what a theorem needs of them is one of its premises. *)
 From AQ Require Import Lib.Bytes Lib.Keccak Keystore.KeystoreModel Keystore.KeystoreProofs
-  Keystore.StoreModel Keystore.StoreProofs.
+  Keystore.StoreModel Keystore.StoreProofs Keystore.KeystorePanic.
 Local Open Scope N_scope.
 
 (* 1. Round trip, for every key (any number of leading zero bytes: the key is
@@ -179,6 +179,72 @@ Theorem C20_decrypt_no_panic_partial :
     decrypt_key kdf aes_ctr aes_cbc_dec H pub_addr f auth <> Panic.
 Proof. exact decrypt_no_panic. Qed.
 Print Assumptions C20_decrypt_no_panic_partial.
+
+(* Full form (supersedes the partial statement above, which is kept): for EVERY key-file value
+   the JSON layer can produce, every passphrase and all primitives, DecryptKey panics EXACTLY on
+   panic_cond: the document passes every check made before getKDFKey (`parsed`: struct typing,
+   version dispatch, cipher name, the three hex strings) and then
+     - a kdfparams type assertion fails (malformed_kdfparams: salt not a string; or salt is hex and
+       dklen is not a number, or kdf = scrypt and one of n, r, p is not a number, or kdf = pbkdf2
+       and c is not a number or prf not a string)       [decryptkey-panics-malformed-kdfparams], or
+     - the KDF call those members lead to panics inside the primitive, or returns a slice with
+       fewer than 32 bytes of capacity                  [decryptkey-panics-dklen-out-of-range], or
+     - the MAC matches and the AES primitive panics     [decryptkey-panics-bad-iv-length]. *)
+Theorem C20_decrypt_panics_exactly :
+  forall kdf aes_ctr aes_cbc_dec H pub_addr (f : keyfile) (auth : bytes),
+    decrypt_key kdf aes_ctr aes_cbc_dec H pub_addr f auth = Panic <->
+    panic_cond kdf aes_ctr aes_cbc_dec H f auth.   (* Keystore/KeystorePanic.v: the three classes above, spelled out *)
+Proof. exact decrypt_panic_iff. Qed.
+Print Assumptions C20_decrypt_panics_exactly.
+
+Theorem C20_decrypt_no_panic :
+  forall kdf aes_ctr aes_cbc_dec H pub_addr (f : keyfile) (auth : bytes),
+    ~ panic_cond kdf aes_ctr aes_cbc_dec H f auth ->
+    decrypt_key kdf aes_ctr aes_cbc_dec H pub_addr f auth = Err \/
+    exists kb, decrypt_key kdf aes_ctr aes_cbc_dec H pub_addr f auth = Ok (kb, pub_addr kb).
+Proof. exact decrypt_value_or_error. Qed.
+Print Assumptions C20_decrypt_no_panic.
+
+(* the hypotheses of the partial theorem lie outside the carve-out (the full theorem implies it) *)
+Theorem C20_decrypt_no_panic_covers_partial :
+  forall kdf aes_ctr aes_cbc_dec H (pub_addr : bytes -> bytes) (f : keyfile) (auth : bytes),
+    kdfparams_typed f -> prims_total kdf aes_ctr aes_cbc_dec -> ~ panic_cond kdf aes_ctr aes_cbc_dec H f auth.
+Proof. exact typed_total_not_panic_cond. Qed.
+Print Assumptions C20_decrypt_no_panic_covers_partial.
+
+(* Each carve-out is a real panic of the model.  Class 1: seven documents, one per type assertion
+   (salt missing, dklen a string, n null, r an object, p an array/bool, c a string, prf a number),
+   whatever the primitives and the passphrase. *)
+Theorem C20_decrypt_no_panic_refuted_malformed :
+  forall kdf aes_ctr aes_cbc_dec H pub_addr auth,
+    Forall (fun f => decrypt_key kdf aes_ctr aes_cbc_dec H pub_addr f auth = Panic) malformed_witnesses.
+Proof. exact malformed_witnesses_panic. Qed.
+Print Assumptions C20_decrypt_no_panic_refuted_malformed.
+
+(* Classes 2-4: well-typed documents; the premise is what the implementation's primitive does on
+   that one call (dklen = -1: pbkdf2 makes a slice of negative capacity; dklen = 0: capacity 0;
+   empty IV: cipher.NewCTR panics) - recorded by the harness on every run. *)
+Theorem C20_decrypt_no_panic_refuted_kdf_panic :
+  forall kdf aes_ctr aes_cbc_dec H pub_addr auth,
+    kdf (KScrypt 2 8 1) auth [] (-1)%Z = PPanic ->
+    decrypt_key kdf aes_ctr aes_cbc_dec H pub_addr kdf_panic_witness auth = Panic.
+Proof. exact kdf_panic_witness_panics. Qed.
+Print Assumptions C20_decrypt_no_panic_refuted_kdf_panic.
+
+Theorem C20_decrypt_no_panic_refuted_short_key :
+  forall kdf aes_ctr aes_cbc_dec H pub_addr auth d,
+    kdf (KScrypt 2 8 1) auth [] 0%Z = POk d -> (length d < 32)%nat ->
+    decrypt_key kdf aes_ctr aes_cbc_dec H pub_addr short_key_witness auth = Panic.
+Proof. exact short_key_witness_panics. Qed.
+Print Assumptions C20_decrypt_no_panic_refuted_short_key.
+
+Theorem C20_decrypt_no_panic_refuted_bad_iv :
+  forall kdf aes_ctr aes_cbc_dec H pub_addr auth d,
+    kdf (KScrypt 2 8 1) auth [] 32%Z = POk d -> (32 <= length d)%nat ->
+    aes_ctr (firstn 16 d) [] [] = PPanic ->
+    decrypt_key kdf aes_ctr aes_cbc_dec H pub_addr (bad_iv_witness (H (firstn 16 (skipn 16 d) ++ []))) auth = Panic.
+Proof. exact bad_iv_witness_panics. Qed.
+Print Assumptions C20_decrypt_no_panic_refuted_bad_iv.
 
 (* 4. Unlocking as a history (keystore.go Unlock / TimedUnlock / Lock / Update / Export /
       Delete / SignHash, SignTx): the lock-state machine ks_step of KeystoreModel.v, tied to the
